@@ -11,10 +11,9 @@ ENVRS = "minijinja/src/environment.rs"
 
 
 def _strip(src):
-    src = re.sub(r"//[^\n]*", "", src)
-    # hook statements (feature verif_hooks) are not part of the logic
-    src = re.sub(r"#\[cfg\(feature = \"verif_hooks\"\)\]\s*[^;]*;", "", src)
-    return src
+    # comments and every item / statement / block under a `verif_hooks` cfg attribute (also
+    # `cfg(all(feature = "verif_hooks", …))`; brace aware) are not part of the logic
+    return _strip_hooks(src)
 
 
 def _norm(s):
@@ -297,7 +296,7 @@ def _strip_hooks(src):
     (brace aware: hook functions contain closures)"""
     src = re.sub(r"//[^\n]*", "", src)
     out, i = [], 0
-    pat = re.compile(r"#\[cfg\(feature = \"verif_hooks\"\)\]\s*")
+    pat = re.compile(r"#\[cfg\((?:all\(\s*)?feature = \"verif_hooks\"[^\]]*\)\]\s*")
     while True:
         m = pat.search(src, i)
         if not m:
@@ -426,7 +425,7 @@ def _calls_in(body, targets, cur_owner=None):
         pre = body[max(0, m.start() - 1):m.start()]
         if pre == ":" and not qual:
             continue
-        for (o, n) in targets:
+        for (o, n) in sorted(targets):     # deterministic order (a set of tuples iterates by string hash)
             if n != name:
                 continue
             if qual in ("Self",):
@@ -650,3 +649,178 @@ def _env_limits(repo):
     lean = ("def envLimitDefaults : List (String × String) := ["
             + ", ".join(f"({lean_str(a)}, {lean_str(b)})" for a, b in rows) + "]")
     return rows, lean
+
+
+# ------------------------------------------------------------------------------------------------
+# the ARGUMENTS of every depth charge of the crate (session 4): what each `push_frame` /
+# `incr_depth` / `decr_depth` call outside `Context` itself is given, term by term, and the
+# conditions (`if` / `match` / `while` headers, match arms) that enclose the call inside its
+# function.  `edge_cost_state_independent` needs: every term a constant, a frame or the caller's
+# depth; no enclosing condition that reads the output, auto-escape, undefined mode or fuel.
+
+_CHARGE_CALL = re.compile(r"((?:\w+\s*\.\s*)*\w+)\s*\.\s*(push_frame|incr_depth|decr_depth)\(")
+_COND_HEAD = re.compile(r"^(?:\}?\s*else\s+)?(if|match|while)\b")
+
+
+def _split_plus(arg):
+    parts, depth, cur = [], 0, ""
+    for ch in arg:
+        if ch in "([{":
+            depth += 1
+        elif ch in ")]}":
+            depth -= 1
+        if ch == "+" and depth == 0:
+            parts.append(cur)
+            cur = ""
+        else:
+            cur += ch
+    parts.append(cur)
+    return [_norm(p) for p in parts if _norm(p)]
+
+
+def _enclosing_conditions(body, pos):
+    """headers of the brace blocks that are open at `pos` and are conditions: `if …`, `else`,
+    `match …`, `while …` and match arms (`pat =>`); loops (`for`, `loop`), closures and plain blocks
+    do not decide WHETHER the call runs for a given entry, they are listed with a `loop:` /
+    `closure:` prefix only so that moving the call in or out of them changes the table"""
+    stack = []
+    last = 0
+    i = 0
+    while i < pos:
+        c = body[i]
+        if c == "{":
+            head = _norm(re.sub(r"#\[[^\]]*\]", "", body[last:i]))
+            stack.append(head)
+            last = i + 1
+        elif c == "}":
+            if stack:
+                stack.pop()
+            last = i + 1
+        elif c == ";":
+            last = i + 1
+        i += 1
+    out = []
+    for h in stack:
+        # a statement prefix such as `let rv = state.with_execution_state(…, |state|` belongs to a closure
+        if _COND_HEAD.match(h) or h == "else":
+            out.append(h)
+        elif h.endswith("=>"):
+            out.append("arm:" + h[:-2].strip())
+        elif re.match(r"^(for|loop)\b", h):
+            out.append("loop:" + h)
+        elif re.search(r"\|[\w\s,&:']*\|$", h):
+            out.append("closure")
+        elif h:
+            out.append("block:" + h[-60:])
+    return out
+
+
+@item("C11_COST_ARGS")
+def _cost_args(repo):
+    fns = _crate_functions(repo)
+    vm = _strip_hooks(read(repo, VM))
+    rows = []
+    for f in fns:
+        if f["file"] == "vm/context.rs":
+            continue
+        body = f["body"]
+        for m in _CHARGE_CALL.finditer(body):
+            recv, op = _norm(m.group(1)).replace(" ", ""), m.group(2)
+            if not re.search(r"(?:^|\.)(?:ctx|macro_ctx|old_ctx)$", recv):
+                continue
+            end = _balanced(body, m.end() - 1)
+            arg = body[m.end():end - 1]
+            terms = []
+            if op == "push_frame":
+                # a frame is one unit whatever it holds
+                terms.append(("frame", "1", 1))
+            else:
+                for t in _split_plus(arg):
+                    if re.fullmatch(r"[A-Z][A-Z0-9_]*", t):
+                        mm = re.search(r"const\s+%s\s*:\s*usize\s*=\s*([0-9_]+)\s*;" % t, vm)
+                        if mm:
+                            terms.append(("const", t, int(mm.group(1).replace("_", ""))))
+                        else:
+                            terms.append(("opaque", t, 0))
+                    elif re.fullmatch(r"[0-9_]+", t):
+                        terms.append(("const", t, int(t.replace("_", ""))))
+                    elif t == "state.ctx.depth()":
+                        terms.append(("caller-depth", t, 0))
+                    else:
+                        terms.append(("opaque", t, 0))
+            conds = _enclosing_conditions(body, m.start())
+            toks = []
+            for h in conds:
+                if h.startswith(("loop:", "closure", "block:")):
+                    continue
+                for tok in re.findall(r"[A-Za-z_]\w*", h):
+                    if tok not in toks and tok not in ("if", "let", "match", "while", "else", "arm", "Some", "None", "Ok", "Err", "mut", "ref"):
+                        toks.append(tok)
+            rows.append((f["file"], f["owner"], f["name"], op, terms, conds, toks))
+    if not any(r[3] == "incr_depth" for r in rows) or not any(r[3] == "push_frame" for r in rows):
+        raise KeyError("no depth charges found")
+
+    def lt(t):
+        return "(%s, %s, %d)" % (lean_str(t[0]), lean_str(t[1]), t[2])
+
+    def ls(xs):
+        return "[" + ", ".join(lean_str(x) for x in xs) + "]"
+    lean = ("def costSites : List (String × String × String × String × List (String × String × Nat) × List String × List String) := [\n  "
+            + ",\n  ".join("(%s, %s, %s, %s, [%s], %s, %s)" % (lean_str(r[0]), lean_str(r[1]), lean_str(r[2]), lean_str(r[3]),
+                                                            ", ".join(lt(t) for t in r[4]), ls(r[5]), ls(r[6])) for r in rows) + "]")
+    return [list(r) for r in rows], lean
+
+
+@item("C11_STACKER")
+def _stacker(repo):
+    """the `stacker` configuration: the limit expression of `set_recursion_limit` with the feature,
+    and the arguments of `stacker::maybe_grow` around the interpreter loop (red zone, segment size)"""
+    src = _strip(read(repo, ENVRS))
+    body = _norm(fn_body(src, r"pub fn set_recursion_limit\(&mut self, level: usize\)\s*\{"))
+    m = re.search(r"#\[cfg\(feature = \"stacker\"\)\] \{ self\.recursion_limit = (.*?); \}", body)
+    if not m:
+        raise KeyError("set_recursion_limit with stacker")
+    vm = _strip(read(repo, VM))
+    g = re.search(r"#\[cfg\(feature = \"stacker\"\)\]\s*\{\s*stacker::maybe_grow\(\s*([^,]+),\s*([^,]+),\s*\|\|\s*\{\s*Self::(\w+)\(", vm)
+    if not g:
+        raise KeyError("stacker::maybe_grow around the interpreter loop")
+
+    def val(e):
+        e = _norm(e)
+        if not re.fullmatch(r"[0-9_ *]+", e):
+            raise KeyError(f"stacker argument not a constant product: {e}")
+        n = 1
+        for p in e.split("*"):
+            n *= int(p.strip().replace("_", ""))
+        return n
+    red, seg, callee = val(g.group(1)), val(g.group(2)), g.group(3)
+    n_grow = len(re.findall(r"stacker::maybe_grow\(", vm))
+    lean = (f"def stackerLimitExpr : String := {lean_str(m.group(1))}\n"
+            f"def stackerRedZone : Nat := {red}\n"
+            f"def stackerSegment : Nat := {seg}\n"
+            f"def stackerGrowCallee : String := {lean_str(callee)}\n"
+            f"def stackerGrowSites : Nat := {n_grow}")
+    return {"limit_expr": m.group(1), "red_zone": red, "segment": seg, "callee": callee, "sites": n_grow}, lean
+
+
+@item("C11_BUILTINS")
+def _builtins(repo):
+    """the names of the builtin filters, tests and functions (`defaults.rs`): what the leaf
+    measurement of the stack budget applies to a probing object"""
+    src = _strip_hooks(read(repo, "minijinja/src/defaults.rs"))
+    rows = []
+    for kind, fn in (("filter", "build_builtin_filters"), ("test", "build_builtin_tests"), ("function", "build_globals")):
+        m = re.search(r"fn %s\(\)[^{]*\{" % fn, src)
+        if not m:
+            raise KeyError(f"defaults.rs: fn {fn}")
+        body = src[m.end():_skip_balanced(src, m.end() - 1, "{", "}")]
+        names = re.findall(r"rv\.insert\(\s*\"(\w+)\"\.into\(\)", body)
+        names += re.findall(r"rv\.insert\(\s*Cow::Borrowed\(\"(\w+)\"\)", body)
+        if not names:
+            raise KeyError(f"defaults.rs: no names in {fn}")
+        for n in names:
+            if (kind, n) not in rows:
+                rows.append((kind, n))
+    lean = ("def builtinNames : List (String × String) := ["
+            + ", ".join(f"({lean_str(a)}, {lean_str(b)})" for a, b in rows) + "]")
+    return [list(r) for r in rows], lean
